@@ -1,3 +1,12 @@
 fn main() {
+    let args: Vec<String> = std::env::args().collect();
+    if args.get(1).map(|s| s.as_str()) == Some("c01-child") {
+        // child-process mode of C01: print the digest of a history + probe given as a file
+        let code = match args.get(2) {
+            Some(f) => vf_eng_a::c01::child_main(f),
+            None => 2,
+        };
+        std::process::exit(code);
+    }
     vf_core::main_with(vf_eng_a::checks());
 }
